@@ -76,6 +76,9 @@ pub struct SeqSpec {
     /// additional start states: symbol sequences of the Legal alphabet,
     /// instantiated on the model; the search continues from each of them
     pub roots: Vec<Vec<&'static str>>,
+    /// while instantiating a root, skip a symbol that is not applicable at that
+    /// state instead of dropping the root (used by the periodic histories)
+    pub roots_skip_inapplicable: bool,
 }
 
 #[derive(Default)]
@@ -1144,6 +1147,7 @@ pub fn search(spec: &SeqSpec, rep: &Reporter, phase: usize) -> SeqResult {
                     m.apply(&op);
                     hist.push(op);
                 }
+                None if spec.roots_skip_inapplicable => continue,
                 None => {
                     ok = false;
                     break;
